@@ -193,3 +193,149 @@ func ruleR32(c *Ctx) *RuleResult {
 	}
 	return r
 }
+
+// ---- R36 EXTREME: B-tree descents to an extreme leaf, and the in-order predecessor taken from it ----
+
+func ruleR36(c *Ctx) *RuleResult {
+	p := c.p
+	r := &RuleResult{Rule: "R36", Title: "EXTREME: B-tree descents hop through the first / last child (or a search result); an internal entry is replaced by the last entry of the right-most leaf to its left", Floor: 3}
+	clHop := "a loop that descends node := node.Children[i] uses i = 0, i = len(node.Children)-1 (of that same node) or the index the tree's own search returned for that node"
+	clPred := "delete replaces an entry of an internal node by the last entry of the right-most leaf below the child to its left (or the first entry of the left-most leaf below the child to its right) and removes exactly that entry from that leaf"
+	for _, fn := range p.Funcs {
+		if fn.Parent() != nil || fn.Blocks == nil || fn.Pkg == nil || p.RelPkg(fn.Pkg.Pkg.Path()) != "trees/btree" || !p.KnownFunc(fn) {
+			continue
+		}
+		gc := c.GC(fn)
+		if gc.Undecided != "" {
+			continue
+		}
+		var bad []string
+		nhop := 0
+		for _, g := range gc.GCs {
+			if g.Exit.Op != "goto" {
+				continue
+			}
+			for j, a := range g.Exit.Args {
+				phi := "φ:" + g.Exit.Leaf + "." + itoa(j)
+				if !(a.Op == "load" && a.Args[0].Op == "ia" && noEpoch(a.Args[0].Args[0]) == "(load (fa:Children "+phi+"))") || itoa(g.From) != g.Exit.Leaf {
+					continue
+				}
+				nhop++
+				idx := a.Args[0].Args[1]
+				is := noEpoch(idx)
+				switch {
+				case is == "#:0":
+				case is == "(- (len (load (fa:Children "+phi+"))) #:1)":
+				case idx.Op == "ext" && idx.Leaf == "0" && idx.Args[0].Op == "call" && strings.HasSuffix(idx.Args[0].Leaf, ").search") && strings.Contains(noEpoch(idx.Args[0]), phi):
+				case idx.Op == "φ" || idx.Op == "load":
+					// an index kept in a variable / field (iterators): judged by R29
+				default:
+					bad = append(bad, fmt.Sprintf("the descent hops through child %s of %s — neither the first, the last nor a search result", trunc(is, 120), phi))
+				}
+			}
+		}
+		if nhop > 0 {
+			if len(bad) > 0 {
+				r.bad("hop:"+p.FuncKey(fn), clHop, p.FuncPos(fn), strings.Join(dedup(bad), "\n"))
+			} else {
+				r.ok("hop:"+p.FuncKey(fn), clHop, p.FuncPos(fn), fmt.Sprintf("%d descent hop(s)", nhop))
+			}
+		}
+	}
+	// the predecessor hand-over in delete
+	if ct := typeByKey(p, "trees/btree.Tree"); ct != nil {
+		fn := methodsOf(p, ct)["delete"]
+		key := "pred:trees/btree.Tree.delete"
+		if fn == nil {
+			r.undecided(key, clPred, "-", "anchored function not found")
+			return r
+		}
+		gc := c.GC(fn)
+		if gc.Undecided != "" {
+			r.undecided(key, clPred, p.FuncPos(fn), gc.Undecided)
+			return r
+		}
+		var bad []string
+		n := 0
+		for _, g := range gc.GCs {
+			for _, ef := range g.Effects {
+				// node.Entries[index] = SRC.Entries[k]
+				if !(isStore(ef) && ef.Args[0].Op == "ia" && noEpoch(ef.Args[0]) == "(ia (load (fa:Entries p:1)) p:2)") {
+					continue
+				}
+				v := ef.Args[1]
+				if !(v.Op == "load" && v.Args[0].Op == "ia" && v.Args[0].Args[0].Op == "load" && v.Args[0].Args[0].Args[0].Op == "fa" && v.Args[0].Args[0].Args[0].Leaf == "Entries") {
+					continue
+				}
+				n++
+				N := v.Args[0].Args[0].Args[0].Args[0]
+				ns := noEpoch(N)
+				k := noEpoch(v.Args[0].Args[1])
+				lastIdx := "(- (len (load (fa:Entries " + ns + "))) #:1)"
+				leftChild := "(load (ia (load (fa:Children p:1)) p:2))"
+				rightChild := "(load (ia (load (fa:Children p:1)) (+ #:1 p:2)))"
+				pred := N.Op == "call" && strings.HasSuffix(N.Leaf, ").right") && len(N.Args) == 3 && noEpoch(N.Args[2]) == leftChild
+				succ := N.Op == "call" && strings.HasSuffix(N.Leaf, ").left") && len(N.Args) == 3 && noEpoch(N.Args[2]) == rightChild
+				if N.Op == "φ" {
+					// a descent written out in place: its entry value and its hops decide which extreme it reaches
+					var k0, j0 int
+					fmt.Sscanf(N.Leaf, "%d.%d", &k0, &j0)
+					entryOK, hopLast, hopFirst := false, true, true
+					for _, h := range gc.GCs {
+						if h.Exit.Op != "goto" || h.Exit.Leaf != itoa(k0) || j0 >= len(h.Exit.Args) {
+							continue
+						}
+						a := h.Exit.Args[j0]
+						if h.From != k0 {
+							switch noEpoch(a) {
+							case leftChild:
+								entryOK = true
+								hopFirst = false
+							case rightChild:
+								entryOK = true
+								hopLast = false
+							}
+							continue
+						}
+						hs := noEpoch(a)
+						if hs != "(load (ia (load (fa:Children "+N.String()+")) (- (len (load (fa:Children "+N.String()+"))) #:1)))" {
+							hopLast = false
+						}
+						if hs != "(load (ia (load (fa:Children "+N.String()+")) #:0))" {
+							hopFirst = false
+						}
+					}
+					pred = entryOK && hopLast
+					succ = entryOK && hopFirst
+				}
+				switch {
+				case pred && k == lastIdx:
+				case succ && k == "#:0":
+				case pred || succ:
+					bad = append(bad, "the entry taken from the extreme leaf is not its last (predecessor) / first (successor) entry: index "+trunc(k, 120))
+				default:
+					bad = append(bad, "the replacing entry does not come from the right-most leaf below the left child (nor the left-most below the right child): "+trunc(ns, 160))
+				}
+				// and exactly that entry leaves that leaf
+				removed := false
+				for _, e2 := range g.Effects {
+					if nm, args, ok := effDo(e2); ok && nm == "deleteEntry" && len(args) == 3 && noEpoch(args[1]) == ns && noEpoch(args[2]) == k {
+						removed = true
+					}
+				}
+				if !removed {
+					bad = append(bad, "the entry that moved up is not the one removed from the leaf")
+				}
+			}
+		}
+		if n == 0 {
+			bad = append(bad, "no internal-node replacement path found in delete")
+		}
+		if len(bad) > 0 {
+			r.bad(key, clPred, p.FuncPos(fn), strings.Join(dedup(bad), "\n"))
+		} else {
+			r.ok(key, clPred, p.FuncPos(fn), fmt.Sprintf("%d replacement path(s): last entry of right(Children[index]), removed from that leaf", n))
+		}
+	}
+	return r
+}
